@@ -292,6 +292,11 @@ def run(ctx, rep):
         for p, o, s, fn in lst:
             key = f'{p}|{kd}|{o}'
             tkey = f'{p}|{kd}' if f'{p}|{kd}' in safe else f'{rp}|{kd}'
+            if tkey not in safe and kd in SLICE_ACCESS:
+                sib = [f'{rp}|{k2}' for k2 in sorted(SLICE_ACCESS) if f'{rp}|{k2}' in safe and
+                       used_n.get(f'{rp}|{k2}', 0) + used_total.get(f'{rp}|{k2}', 0) < safe[f'{rp}|{k2}'].get('count', 1 << 30)]
+                if sib:
+                    tkey = sib[0]
             ent = safe.get(tkey)
             if ent is not None and (ent.get('ordinals') is None or o in ent['ordinals']) and \
                     used_n.get(tkey, 0) < ent.get('count', 1 << 30):
@@ -318,10 +323,10 @@ def run(ctx, rep):
         fpath, kd = tkey.rsplit('|', 1)
         free = ent['count'] - used_total.get(tkey, 0)
         if free > 0:
-            pool.setdefault((module_of(fpath), kd), []).extend([tkey] * free)
+            pool.setdefault((module_of(fpath), kind_class(kd)), []).extend([tkey] * free)
     for rp, kd, p, o, s, fn, over in unmatched:
         key = f'{p}|{kd}|{o}'
-        donors = pool.get((module_of(rp), kd), [])
+        donors = pool.get((module_of(rp), kind_class(kd)), [])
         if donors:
             tkey = donors.pop(0)
             ent = safe[tkey]
@@ -353,6 +358,15 @@ def run(ctx, rep):
             rep.ob('C18.sibling', f'{l}/verify_public_input', json.dumps(v) == common_sig,
                    f'{l}::verify_public_input has undischarged site kinds {v}; the majority of its siblings have {json.loads(common_sig)}',
                    '', cfg)
+
+
+# partial operations that fail for the same reason -- a position beyond the length of a slice -- are one class: a table
+# entry written for `xs[a..b]` also covers `xs.split_at(a)` / `xs[i]` at the same place, guarded by the same lengths
+SLICE_ACCESS = {'call:index', 'call:index_mut', 'call:split_at', 'call:split_at_mut', 'assert:BoundsCheck', 'call:split_first', 'call:split_last'}
+
+
+def kind_class(kd):
+    return 'slice-access' if kd in SLICE_ACCESS else kd
 
 
 def module_of(path):
